@@ -543,6 +543,7 @@ func runC18(c *Check) {
 	ruleFlagsBoundBeforeFileRead(c, p, "C18-R13")
 	ruleFlagsHaveTheLastWord(c, p, "C18-R14")
 	ruleGenesisZeroTimeByInstant(c, p, "C18-R15")
+	ruleNoNumberThroughFloat(c, p, "C18-R16")
 }
 
 // ruleFlagsBoundBeforeFileRead (C18-R13): while the flags are bound, the loader copies every value
@@ -1394,4 +1395,41 @@ func ruleGenesisZeroTimeByInstant(c *Check, p *Prog, rule string) {
 	c.Decide(rule, "Genesis.Validate ⟂ zero start time refused by instant", fnName(fn), p.InstrPos(notZero[0].In), "a genesis is accepted only with a start time that is not the zero instant",
 		"the validator can accept a genesis without having found its start time different from the zero instant", g,
 		g.PathAvoiding([]*Node{g.Entry}, nodeSet(okExits), nodeSet(notZero)))
+}
+
+// ruleNoNumberThroughFloat (C18-R16): the genesis and configuration loaders read integers as
+// integers. A custom decoder that takes a JSON number through `any` gets a float64: every height
+// above 2^53 that the node itself wrote comes back rounded, silently — "a file written by the
+// node loads back equal" fails at the top of the range.
+func ruleNoNumberThroughFloat(c *Check, p *Prog, rule string) {
+	c.Doc(rule, "VP: no function of the genesis and configuration packages converts a float64 to an integer type (a number decoded through `any` / interface{} and narrowed afterwards): integer options and heights are decoded into integer types directly.")
+	n, bad := 0, ""
+	for _, fn := range p.Funcs {
+		pk := fnPkg(fn)
+		if pk == nil || fn.Blocks == nil || !(pk.Pkg.Path() == rootPath+"/pkg/genesis" || pk.Pkg.Path() == configPkg) {
+			continue
+		}
+		n++
+		for _, b := range fn.Blocks {
+			for _, in := range b.Instrs {
+				cv, ok := in.(*ssa.Convert)
+				if !ok {
+					continue
+				}
+				from, ok1 := cv.X.Type().Underlying().(*types.Basic)
+				to, ok2 := cv.Type().Underlying().(*types.Basic)
+				if ok1 && ok2 && (from.Kind() == types.Float64 || from.Kind() == types.Float32) && to.Info()&types.IsInteger != 0 {
+					bad = fnShort(fn) + " @" + p.InstrPos(in)
+				}
+			}
+		}
+	}
+	switch {
+	case n == 0:
+		c.Unk(rule, "loaders ⟂ integers stay integers", "", "", "anchor lost: no functions in the genesis / configuration packages")
+	case bad == "":
+		c.OK(rule, "loaders ⟂ integers stay integers", "", "", fmt.Sprintf("%d functions, none narrows a float to an integer", n), true)
+	default:
+		c.Bad(rule, "loaders ⟂ integers stay integers", "", strings.TrimSpace(bad[strings.LastIndex(bad, "@")+1:]), "a float64 is narrowed to an integer in "+bad+": a number read through interface{} is a float64 with a 53-bit mantissa — an initial height (or any 64-bit option) above 2^53 that the node itself wrote loads back as a different number, with no error", nil)
+	}
 }
